@@ -356,12 +356,12 @@ def generate(ctx):
                 for m in methods:
                     cases.append(("exhaustive", b, m))
         blocks4 = list(exhaustive_blocks(4))
-        for b in blocks4:  # every block of 4, five methods each
+        for b in blocks4:  # every block of 4, three methods each
             for m in rng.sample(methods, 5):
                 cases.append(("exhaustive4-sampled", b, m))
     else:
         per_rule = [(ld, en, d, 1) for (ld, en) in STATUS for d in GRID]
-        for _ in range(5000):  # uniform sample of the full product
+        for _ in range(ctx.n(5000, 25000)):  # uniform sample of the full product
             k = rng.choice([1, 2, 3, 3, 4, 4, 4])
             b = tuple(rng.choice(per_rule) for _ in range(k))
             cases.append(("exhaustive-sampled", b, rng.choice(methods)))
@@ -476,8 +476,8 @@ def run(ctx, build, verdict, ev):
     c["distinct_nontrivial"] = len(nontrivial)
     c["rule"] = ("real RuleBlock.activate() with each of the 7 activation classes on blocks of logged fl.Rule objects; "
                  + ("thorough: full product of blocks of 1-3 rules (degree in {0,.25,.5,1} x enabled/disabled/unloaded) x 156 method configurations "
-                    "(n in -1..5, 7 thresholds on/between the degrees, 6 comparators), every block of 4 rules x 5 sampled configurations; "
-                    if ctx.tier == "thorough" else "quick: 5000 cases sampled uniformly from that product (blocks of 1-4 rules); ")
+                    "(n in -1..5, 7 thresholds on/between the degrees, 6 comparators), every block of 4 rules x 3 sampled configurations; "
+                    if ctx.tier == "thorough" else "quick: cases sampled uniformly from that product (blocks of 1-4 rules); ")
                  + "random blocks of 1-8 rules with random doubles (ties, zeros, NaN, +-inf, negative, subnormal, 1-ulp neighbours), thresholds on / one ulp off / between degrees or NaN/inf; "
                  "batch blocks (some degrees are arrays of size 2). non-trivial = scalar case whose trigger calls are a non-empty proper subset of the block's rules")
     c["distribution"] = dict(sorted(dist.items()))
@@ -487,7 +487,7 @@ def run(ctx, build, verdict, ev):
     c["samples"] = [dict(kind=cls, method=list(m), rules=[list(r) for r in rules], error=err) for cls, rules, m, err in index[::step][:6]]
     ev["assumptions"] += [
         "heapq.heappush/heappop on (key, index) tuples pop in increasing tuple order (the model extracts the minimum under Python's tuple comparison)",
-        "Highest/Lowest = documented sorted order is proved for numeric readings satisfying the order laws PosOrder (proved for R); for binary64 it is tied by this correspondence",
+        "Highest/Lowest = documented sorted order is proved for numeric readings satisfying the order laws PosOrder; PosOrder is proved for R and for binary64 (from Coq's FloatAxioms: ltb_spec, eqb_spec, opp_spec)",
         "Threshold.Comparator.__operator__ is hand-modelled (cmp_apply); the table is compared with operator.lt/le/eq/ne/ge/gt on every run",
         "degrees are numpy.float64 scalars or arrays of size 2; a batch of size 1 (shape (1,)) is not modelled: Proportional rejects it through NumPy's in-place add, the other methods accept it",
     ]
